@@ -156,7 +156,7 @@ def check(case, ctx):
             else:
                 fn = lambda: da.stack(arg, axis='new', keys=keys, **kw)
             label = "stack(%s, axis='new', keys=%r, %s) of %s" % (case["container"], keys, kw, desc)
-        res, exc = ctx.call(label, fn, operands=tuple(arrs), meta='drop')
+        res, exc = ctx.call(label, fn, operands=tuple(arrs), meta='drop', containers=(arg,))
         diff = differing_dims([model.MA(np.transpose(m.values, [m.dims.index(d) for d in ms[0].dims]), ms[0].dims,
                                         [m.labels[m.dims.index(d)] for d in ms[0].dims]) for m in ms])
         must_refuse = bool(diff) and not align
@@ -206,7 +206,7 @@ def check(case, ctx):
     axis = ck if case["axis_by_pos"] else d0
     arg = list(arrs) if case["container"] == 'list' else tuple(arrs)
     label = "concatenate(%s, axis=%r, %s) of %s" % (case["container"], axis, kw, desc)
-    res, exc = ctx.call(label, lambda: da.concatenate(arg, axis=axis, **kw), operands=tuple(arrs), meta='drop')
+    res, exc = ctx.call(label, lambda: da.concatenate(arg, axis=axis, **kw), operands=tuple(arrs), meta='drop', containers=(arg,))
     norm = [model.MA(np.transpose(m.values, [m.dims.index(d) for d in ms[0].dims]), ms[0].dims, [m.labels[m.dims.index(d)] for d in ms[0].dims]) for m in ms]
     diff = differing_dims(norm, skip=d0)
     if diff and not align:
